@@ -1,49 +1,120 @@
 #!/usr/bin/env python3
-"""Apply each seeded change to /repo, run the registered quick check of the property it
-targets (plus extra checks given on the command line as ID=PROP,PROP), undo it, and record
-the outcome in /verif/seeded/<id>/meta.json and /verif/seeded/README.md.
-usage: tools_mutant_matrix.py [ids...]"""
-import json, os, re, subprocess, sys, time
+"""Run the registered quick checks against each seeded change and record the outcome in
+/verif/seeded/<id>/meta.json.
+
+Two modes:
+  tools_mutant_matrix.py --inplace [ids...]
+      exactly the documented procedure: git -C /repo apply <patch>; python3 /verif/run.py
+      quick <property>; git -C /repo checkout -- .   (sequential, occupies /repo)
+  tools_mutant_matrix.py --workers N [ids...]
+      the same checks, N changes at a time: each worker owns a scratch git worktree of /repo
+      (under /tmp/mx/wK/repo) and a copy of /verif (under /tmp/mx/wK/verif) whose harness and
+      replay crates point at that worktree (VERIF_REPO); everything under /tmp/mx is removed
+      at the end.  The checks are the same code; only the repository root differs.
+A change counts as caught when a check prints a VIOLATION line (exit 1); exit 2
+(inconclusive: the machinery refuses to pass but has no reproduced counterexample) is
+recorded separately."""
+import json, os, re, shutil, subprocess, sys, time, threading, queue
 SEED = '/verif/seeded'
 EXTRA = {  # further registered checks worth running for a change (it may break several properties)
     'C01-1': ['C16'], 'C01-2': ['C03'], 'C01-3': ['C08', 'C09'], 'C02-1': ['C06'], 'C02-2': ['C06'], 'C02-3': ['C16', 'C04'],
-    'C03-1': [], 'C03-2': ['C06', 'C02'], 'C03-3': [], 'C05-1': ['C06'], 'C05-2': ['C16'], 'C05-3': ['C08'],
+    'C03-1': [], 'C03-2': ['C02', 'C06'], 'C03-3': [], 'C05-1': ['C06'], 'C05-2': ['C16'], 'C05-3': ['C08'],
     'C08-1': ['C07'], 'C09-1': ['C06'], 'C16-1': ['C08'], 'C16-2': [], 'C16-3': ['C05'],
     'C17-1': ['C04'], 'C17-2': ['C04'], 'C17-3': ['C06', 'C02'],
+    'C10-2': ['C11'], 'C11-1': ['C10'], 'C11-2': ['C10'], 'C11-3': ['C14'], 'C14-1': ['C10'],
 }
-REGISTERED = {'C01', 'C02', 'C03', 'C04', 'C05', 'C06', 'C07', 'C08', 'C09', 'C16'}
-ids = sys.argv[1:] or sorted(os.listdir(SEED))
-for sid in ids:
+REGISTERED = {c['property_id'] for c in json.load(open('/verif/MANIFEST.json'))['checks']}
+
+
+def sh(cmd, **kw):
+    return subprocess.run(cmd, shell=True, stdout=subprocess.PIPE, stderr=subprocess.STDOUT, text=True, **kw)
+
+
+def run_checks(sid, repo, verif, env):
     d = os.path.join(SEED, sid)
-    if not os.path.exists(os.path.join(d, 'patch.diff')):
-        continue
     meta = json.load(open(os.path.join(d, 'meta.json')))
     prop = meta['breaks_property']
     props = [p for p in [prop] + EXTRA.get(sid, []) if p in REGISTERED]
-    subprocess.run('git -C /repo checkout -q -- .', shell=True)
-    r = subprocess.run('git -C /repo apply %s/patch.diff' % d, shell=True, stdout=subprocess.PIPE, stderr=subprocess.STDOUT, text=True)
+    sh('git -C %s checkout -q -- . && git -C %s clean -fdq' % (repo, repo))
+    r = sh('git -C %s apply %s/patch.diff' % (repo, d))
     if r.returncode != 0:
         meta['matrix'] = {'error': 'patch does not apply to current HEAD: ' + r.stdout[-200:]}
         json.dump(meta, open(os.path.join(d, 'meta.json'), 'w'), indent=1)
         print(sid, 'PATCH-FAIL', flush=True)
-        continue
+        return
     res = {}
     try:
         for p in props:
             t = time.time()
-            r = subprocess.run('cd /verif && timeout 4000 python3 run.py quick %s' % p, shell=True, stdout=subprocess.PIPE, stderr=subprocess.STDOUT, text=True)
+            r = sh('cd %s && timeout 4000 python3 run.py quick %s' % (verif, p), env=env)
             out = r.stdout
             viol = [l for l in out.splitlines() if l.startswith('VIOLATION')]
-            fails = [l.strip()[:260] for l in out.splitlines() if re.match(r'^\s+\[FAIL\]', l)]
+            fails = [l.strip()[:300] for l in out.splitlines() if re.match(r'^\s+\[FAIL\]', l)]
             inco = [l.strip()[:200] for l in out.splitlines() if re.match(r'^\s+\[INCO\]', l)]
-            res[p] = {'exit': r.returncode, 'violations': len(viol), 'failed_obligations': fails[:6], 'inconclusive': inco[:4],
-                      'wall_s': round(time.time() - t), 'first_violation': viol[0] if viol else None}
-            print(sid, p, 'exit=%d' % r.returncode, 'VIOLATION' if viol else ('inconclusive' if r.returncode == 2 else 'not caught'), fails[:1], flush=True)
+            reproduced = [l.strip()[:300] for l in out.splitlines() if 'REPRODUCED' in l and 'NOT-REPRODUCED' not in l]
+            res[p] = {'exit': r.returncode, 'violations': len(viol), 'failed_obligations': fails[:8], 'inconclusive': inco[:4],
+                      'reproduced': reproduced[:3], 'wall_s': round(time.time() - t), 'first_violation': viol[0] if viol else None}
+            print(sid, p, 'exit=%d' % r.returncode, 'VIOLATION' if viol else ('inconclusive' if r.returncode == 2 else 'not caught'), fails[:2], flush=True)
             if viol:
                 break
     finally:
-        subprocess.run('git -C /repo checkout -q -- .', shell=True)
+        sh('git -C %s checkout -q -- . && git -C %s clean -fdq' % (repo, repo))
     meta['matrix'] = res
     meta['caught'] = any(v['violations'] for v in res.values())
-    meta['what_i_ran'] = 'git -C /repo apply patch.diff; python3 /verif/run.py quick <property> for ' + ', '.join(props) + '; git -C /repo checkout -- .'
+    meta['caught_by'] = [p for p, v in res.items() if v['violations']]
+    meta['refused_by'] = [p for p, v in res.items() if v['exit'] == 2]
+    meta['what_i_ran'] = ('git apply patch.diff in %s; python3 run.py quick <property> for %s; git checkout -- .'
+                          % ('/repo' if repo == '/repo' else 'a scratch worktree of /repo (same checks, VERIF_REPO pointing at it)', ', '.join(props)))
     json.dump(meta, open(os.path.join(d, 'meta.json'), 'w'), indent=1)
+
+
+def main():
+    args = sys.argv[1:]
+    workers = 0
+    if args and args[0] == '--inplace':
+        args = args[1:]
+    elif args and args[0] == '--workers':
+        workers = int(args[1])
+        args = args[2:]
+    ids = args or sorted(x for x in os.listdir(SEED) if os.path.isdir(os.path.join(SEED, x)))
+    ids = [i for i in ids if os.path.exists(os.path.join(SEED, i, 'patch.diff'))]
+    if not workers:
+        for sid in ids:
+            run_checks(sid, '/repo', '/verif', dict(os.environ))
+        return
+    root = '/tmp/mx'
+    q = queue.Queue()
+    for i in ids:
+        q.put(i)
+
+    def work(k):
+        w = os.path.join(root, 'w%d' % k)
+        repo, verif = os.path.join(w, 'repo'), os.path.join(w, 'verif')
+        sh('git -C /repo worktree remove --force %s 2>/dev/null; rm -rf %s; mkdir -p %s' % (repo, w, w))
+        sh('git -C /repo worktree add --detach %s HEAD -q' % repo)
+        sh('rsync -a --exclude .cache --exclude target --exclude .git --exclude replays --exclude evidence /verif/ %s/' % verif)
+        os.makedirs(os.path.join(verif, 'evidence'), exist_ok=True)
+        for f in ('kani/Cargo.toml', 'replay/Cargo.toml'):
+            p = os.path.join(verif, f)
+            open(p, 'w').write(open(p).read().replace('"/repo/', '"%s/' % repo))
+        env = dict(os.environ, VERIF_REPO=repo, VERIF_JOBS=os.environ.get('MX_JOBS', '5'), VERIF_MEM_GB=os.environ.get('MX_MEM_GB', '20'))
+        while True:
+            try:
+                sid = q.get_nowait()
+            except queue.Empty:
+                break
+            try:
+                run_checks(sid, repo, verif, env)
+            except Exception as e:  # noqa
+                print(sid, 'ERROR', e, flush=True)
+        sh('git -C /repo worktree remove --force %s; rm -rf %s' % (repo, w))
+    ts = [threading.Thread(target=work, args=(k,)) for k in range(workers)]
+    for t in ts:
+        t.start()
+    for t in ts:
+        t.join()
+    sh('git -C /repo worktree prune; rm -rf %s' % root)
+
+
+if __name__ == '__main__':
+    main()
